@@ -135,7 +135,10 @@ func handleShareMemoryByFilePath(s *Session, hdr header) error {
 		return err
 	}
 	vpo(vpHandshake, s, 5)
-	bufferPath, queuePath := s.extractShmMetadata(body)
+	bufferPath, queuePath, err := s.extractShmMetadata(body)
+	if err != nil {
+		return err
+	}
 	qm, err := mappingQueueManager(queuePath)
 	if err != nil {
 		return fmt.Errorf("handleShareMemoryByFilePath mappingQueueManager failed,queuePathLen:%d path:%s err=%s",
@@ -205,7 +208,10 @@ func handleShareMemoryByMemFd(s *Session, h header) error {
 		return errors.New("read shm metadata failed,reason:" + err.Error())
 	}
 	vpo(vpHandshake, s, 9)
-	bufferPath, queuePath := s.extractShmMetadata(body)
+	bufferPath, queuePath, err := s.extractShmMetadata(body)
+	if err != nil {
+		return err
+	}
 
 	//2.send AckReadyRecvFD
 	ack := header(make([]byte, headerSize))
